@@ -11,7 +11,6 @@ from ..symeval_ops import ExcV, NTV, PyObjV
 from .. import formrules as F
 from .. import writerules as W
 from .. import cfgmodel as M
-from .c08 import Node
 
 CP = "atsim.potentials.config._config_parser"
 MODS = "atsim.potentials._modifiers"
@@ -45,7 +44,7 @@ def run(chk):
     chk.rule("C09.O2", "trans(f, as.constant X)(r) = f(r + X)", 1)
     chk.rule("C09.O3", "custom formula: parameters bound positionally before each evaluation; forms registered with each other (ordered pairs) and with pymath", 8)
     chk.rule("C09.O4", "NAME(r, p1..pn) signature parsing: label and parameter list in order", 4)
-    chk.rule("C09.O5", "every results-name read by the tree walker is produced by the grammar", 2)
+    chk.rule("C09.O5", "grammar and tree walker agree on every results name: each shape of definition the grammar accepts is walked into a definition tuple", 7)
     chk.rule("C09.O6", "tree walker: descriptions, range markers, nested modifiers -> tuples (nesting preserved, order preserved)", 6)
     chk.rule("C09.O7", "builder: forms/modifiers instantiated with their arguments in order; ranges chained in listing order", 5)
     chk.rule("C09.O8", "documented modifiers and pymath functions are exactly the registered ones", 2)
@@ -200,111 +199,92 @@ def custom_forms(chk, P):
 
 
 def signatures(chk, P):
-    I = F.make_interp(P)
+    """[Potential-Form] keys through ConfigParser(text).potential_form"""
+    from .c14 import parse
     cls = P.cls(CP, "ConfigParser")
-    cp = InstV(cls)
     cfg = P.cls("atsim.potentials.config._common", "ConfigurationException")
-    site = cls.site_of("_parse_potential_form_signature")
+    site = cls.lookup("potential_form").site()
+
+    def read(sig):
+        out = parse(P, "[Pair]\nA-B : as.zero\n[Potential-Form]\n%s : r\n" % sig)
+        if out[0] != "ok":
+            return out[1]
+        I, cp = out[3], out[4]
+        try:
+            rows = I.as_iterable(I.getattr(cp, "potential_form"))
+        except RaiseSignal as e:
+            return e.exc
+        if not (isinstance(rows, ListV) and len(rows.items) == 1):
+            raise AnalysisError("potential_form of a one-entry section is %r" % (rows,))
+        return I.getattr(rows.items[0], "signature")
     for text, want in (("f(r,A,B)", ("f", ["r", "A", "B"])), ("  my_form2( r , rho )  ", ("my_form2", ["r", "rho"])), ("g(r)", ("g", ["r"]))):
-        r = W.run_method(I, cp, "_parse_potential_form_signature", [Const(text)])
+        r = read(text)
         ok = isinstance(r, NTV) and r.cls.fields[:2] == ["label", "parameter_names"] and r.values[0].v == want[0] \
             and [x.v for x in r.values[1].items] == want[1]
         chk.ob("C09.O4", "signature %r -> label %r, parameters %r" % (text, want[0], want[1]), ok, site=site, found=r, expect=want,
                key="C09.O4|%s" % text.strip())
     for text in ("f", "1f(r)", "(r)"):
-        try:
-            r = W.run_method(I, cp, "_parse_potential_form_signature", [Const(text)])
-            out = r
-        except RaiseSignal as e:
-            out = e.exc
+        out = read(text)
         ok = isinstance(out, ExcV) and isinstance(out.cls, ClassV) and out.cls.ci.is_subclass_of(cfg)
         chk.ob("C09.O4", "malformed signature %r is a configuration error" % text, ok, site=site, found=out, expect="ConfigParserException",
                key="C09.O4|bad|%s" % text)
 
 
+def _definition(P, defn):
+    """ConfigParser('[Pair] A-B : <defn>').pair[0].potential_form_instance -> (I, tuple) | (None, exception value)"""
+    from .c14 import parse
+    out = parse(P, "[Pair]\nA-B : %s\n" % defn)
+    if out[0] != "ok":
+        return None, out[1]
+    I, cp = out[3], out[4]
+    try:
+        rows = I.as_iterable(I.getattr(cp, "pair"))
+        return I, I.getattr(rows.items[0], "potential_form_instance")
+    except RaiseSignal as e:
+        return None, e.exc
+
+
 def grammar_names(chk, P):
-    gfi = P.func("atsim.potentials.config._multi_range_parser", "_grammar")
-    produced = set()
-    for n in ast.walk(gfi.node):
-        # expr("name") sets a results name
-        if isinstance(n, ast.Call) and len(n.args) == 1 and isinstance(n.args[0], ast.Constant) and isinstance(n.args[0].value, str) \
-                and not (isinstance(n.func, ast.Name) and n.func.id in ("Literal", "Word", "Regex", "Keyword", "oneOf")):
-            produced.add(n.args[0].value)
-    cls = P.cls(CP, "ConfigParser")
-    consumed = set()
-    for meth in ("_descend_tree", "_descend_potential_modifier", "_descend_potential_description"):
-        fi = cls.lookup(meth)
-        for n in ast.walk(fi.node):
-            if isinstance(n, ast.Subscript) and isinstance(n.slice, ast.Constant) and isinstance(n.slice.value, str):
-                consumed.add(n.slice.value)
-            if isinstance(n, ast.Compare) and isinstance(n.left, ast.Call) and isinstance(n.left.func, ast.Attribute) and n.left.func.attr == "getName":
-                for c in n.comparators:
-                    if isinstance(c, ast.Constant):
-                        consumed.add(c.value)
-            if isinstance(n, ast.Compare) and isinstance(n.left, ast.Name) and n.left.id == "name":
-                for c in n.comparators:
-                    if isinstance(c, ast.Constant):
-                        consumed.add(c.value)
-    if len(consumed) < 8:
-        raise AnalysisError("only %d consumed results-names found (expected at least 8)" % len(consumed))
-    missing = sorted(consumed - produced)
-    chk.ob("C09.O5", "every results-name the tree walker reads (%d) is produced by the grammar" % len(consumed), not missing, site=gfi.site(),
-           found=missing or None, expect=sorted(consumed), key="C09.O5|consumed-subset-produced")
-    unused = sorted(produced - consumed - {"multi_range"})
-    chk.ob("C09.O5", "every results-name the grammar produces is read by the walker (apart from the top-level group)", not unused,
-           site=gfi.site(), found=unused or None, expect="none unused", key="C09.O5|produced-subset-consumed")
-
-
-def _desc(label, params):
-    return PyObjV(Node("potential_description", {"potential_label": Const(label), "potential_parameters": ListV([Num(ep.const(p)) for p in params], "list")}))
-
-
-def _range(marker, start):
-    return PyObjV(Node("range_start", {"range_type": Const(marker), "start": Num(ep.const(start))}))
-
-
-class ModNode(Node):
-    """modifier node: modifier_parameters is a list of parameter groups, each iterable"""
-    pass
+    """the grammar and the tree walker agree on every results name: each shape of definition the grammar accepts is walked
+    without a Python error (a name the walker reads and the grammar does not set is a KeyError here)"""
+    gm = P.module("atsim.potentials.config._multi_range_parser")
+    shapes = [("a form without parameters", "as.zero"), ("a form with parameters", "as.buck 1000.0 0.3 32"),
+              ("a leading range marker", ">=1.5 as.zero"), ("several ranges", "as.a 1 >2 as.b >=3.5 as.c 4"),
+              ("a modifier", "sum(as.a 1, as.b 2)"), ("a nested modifier with ranges", "sum(product(as.a >1 as.b, as.c), >2 as.d) >=5 as.e"),
+              ("a dotted label and signed / exponent numbers", "my.own.form -1 +2.5 1e-3 .5")]
+    for what, defn in shapes:
+        I, t = _definition(P, defn)
+        chk.ob("C09.O5", "%s (%r) is accepted by the grammar and walked into a definition tuple" % (what, defn),
+               I is not None and isinstance(t, NTV), site=gm.relpath, found=t, expect="a definition tuple", key="C09.O5|%s" % what)
 
 
 def tree_walker(chk, P):
-    I = F.make_interp(P)
     cls = P.cls(CP, "ConfigParser")
-    cp = InstV(cls)
-    mod = P.module("atsim.potentials.config._common")
-    mrd = I.module_global(mod, "MultiRangeDefinitionTuple")
-    cp.attrs["_default_range_start"] = I.call(mrd, [Const(">"), Num(ep.const(0))], {})
-    site = cls.site_of("_descend_tree")
-
-    def walk(nodes):
-        return I.call(I.getattr(cp, "_descend_tree"), [I.call(ExtV("builtins.iter"), [ListV(nodes, "list")], {})], {})
+    site = cls.lookup("pair").site()
 
     def field(t, name):
         return t.values[t.cls.fields.index(name)]
-    # a three-range definition: as.buck 1 2 3 >=2 as.zero >4 as.constant 5
-    t = walk([_desc("as.buck", [1, 2, 3]), _range(">=", 2), _desc("as.zero", []), _range(">", 4), _desc("as.constant", [5])])
+
+    def num(x):
+        c = x.const()
+        return int(c) if c.denominator == 1 else float(c)
+    I, t = _definition(P, "as.buck 1 2 3 >=2 as.zero >4 as.constant 5")
     chain = []
     cur = t
     while isinstance(cur, NTV):
-        chain.append((field(cur, "potential_form").v, [int(x.const()) for x in field(cur, "parameters").items],
-                      field(cur, "start").values[0].v, int(field(cur, "start").values[1].const())))
+        chain.append((field(cur, "potential_form").v, [num(x) for x in field(cur, "parameters").items],
+                      field(cur, "start").values[0].v, num(field(cur, "start").values[1])))
         cur = field(cur, "next")
     want = [("as.buck", [1, 2, 3], ">", 0), ("as.zero", [], ">=", 2), ("as.constant", [5], ">", 4)]
     chk.ob("C09.O6", "a three-range definition becomes a chain of three instances in listing order with their markers and parameters",
-           chain == want, site=site, found=chain, expect=want, key="C09.O6|chain")
-    # nested modifier: sum(as.a 1, product(as.b 2 >3 as.c, as.d)) >5 as.e
-    inner = PyObjV(Node("modifier", {"modifier_label": Const("product"),
-                                     "modifier_parameters": ListV([ListV([_desc("as.b", [2]), _range(">", 3), _desc("as.c", [])], "list"),
-                                                                   ListV([_desc("as.d", [])], "list")], "list")}))
-    outer = PyObjV(Node("modifier", {"modifier_label": Const("sum"),
-                                     "modifier_parameters": ListV([ListV([_desc("as.a", [1])], "list"), ListV([inner], "list")], "list")}))
-    t = walk([outer, _range(">", 5), _desc("as.e", [])])
+           chain == want, site=site, found=chain if chain else t, expect=want, key="C09.O6|chain")
+    I, t = _definition(P, "sum(as.a 1, product(as.b 2 >3 as.c, as.d)) >5 as.e")
     ok = isinstance(t, NTV) and t.cls.name == "PotentialModifierTuple" and field(t, "modifier").v == "sum"
     chk.ob("C09.O6", "a modifier becomes a PotentialModifierTuple carrying its label", ok, site=site, found=t, expect="sum(...)", key="C09.O6|modifier")
     if ok:
         args = field(t, "potential_forms").items
-        ok1 = len(args) == 2 and args[0].cls.name == "PotentialFormInstanceTuple" and field(args[0], "potential_form").v == "as.a"
+        ok1 = len(args) == 2 and args[0].cls.name == "PotentialFormInstanceTuple" and field(args[0], "potential_form").v == "as.a" \
+            and [num(x) for x in field(args[0], "parameters").items] == [1]
         chk.ob("C09.O6", "its arguments are kept in order, each parsed as a full multi-range definition", ok1, site=site, found=args,
                expect="[as.a 1, product(...)]", key="C09.O6|arguments")
         ok2 = len(args) == 2 and args[1].cls.name == "PotentialModifierTuple" and field(args[1], "modifier").v == "product"
@@ -314,10 +294,10 @@ def tree_walker(chk, P):
             a0 = field(args[1], "potential_forms").items[0]
             nxt = field(a0, "next")
             ok3 = field(a0, "potential_form").v == "as.b" and isinstance(nxt, NTV) and field(nxt, "potential_form").v == "as.c" \
-                and field(nxt, "start").values[0].v == ">" and int(field(nxt, "start").values[1].const()) == 3
+                and field(nxt, "start").values[0].v == ">" and num(field(nxt, "start").values[1]) == 3
             chk.ob("C09.O6", "ranges inside a nested argument are kept", ok3, site=site, found=a0, expect="as.b 2 >3 as.c", key="C09.O6|nested-ranges")
         nx = field(t, "next")
-        ok4 = isinstance(nx, NTV) and field(nx, "potential_form").v == "as.e" and int(field(nx, "start").values[1].const()) == 5
+        ok4 = isinstance(nx, NTV) and field(nx, "potential_form").v == "as.e" and num(field(nx, "start").values[1]) == 5
         chk.ob("C09.O6", "a modifier can be followed by further ranges", ok4, site=site, found=nx, expect=">5 as.e", key="C09.O6|modifier-next")
 
 
@@ -344,7 +324,7 @@ def builder(chk, P):
     mods = DictV()
     mods.items[Const("sum").key()] = (Const("sum"), PyObjV(Factory("sum")))
     b = I.instantiate(bcls, [forms, mods], {}, None)
-    site = bcls.site_of("_make_multi_range_tuple")
+    site = bcls.lookup("create_potential_function").site()
     third = I.call(pfi, [Const("as.c"), ListV([], "list"), I.call(mrd, [Const(">"), Num(ep.const(4))], {}), NONE], {})
     second = I.call(pfi, [Const("as.b"), ListV([Num(ep.const(7))], "list"), I.call(mrd, [Const(">="), Num(ep.const(2))], {}), third], {})
     first = I.call(pfi, [Const("as.a"), ListV([Num(ep.const(1)), Num(ep.const(2))], "list"), I.call(mrd, [Const(">"), Num(ep.const(0))], {}), second], {})
@@ -376,12 +356,14 @@ def builder(chk, P):
     class PFB(object):
         def m_create_potential_function(self, J, args, kwargs):
             return Opaque(("built", args[0].key()))
-    pbi = InstV(pb)
-    pbi.attrs["log_section_name"] = Const("Pair")
-    potobj = W.run_method(I, pbi, "_create_potential", [row, PyObjV(PFB())])
+    st = I.__dict__.setdefault("class_standins", {})
+    st[bcls.fq] = lambda J, ci, args, kwargs: PyObjV(PFB())
+    pbi = I.instantiate(pb, [ListV([row], "list"), Opaque(("collaborator", "forms")), Opaque(("collaborator", "modifiers"))], {}, None)
+    pots = I.as_iterable(I.getattr(pbi, "potentials"))
+    potobj = pots.items[0] if isinstance(pots, ListV) and len(pots.items) == 1 else pots
     ok = isinstance(potobj, InstV) and I.getattr(potobj, "speciesA").v == "O" and I.getattr(potobj, "speciesB").v == "U" \
         and I.getattr(potobj, "potentialFunction").key() == Opaque(("built", W.param("defn").key())).key()
-    chk.ob("C09.O7", "a [Pair] row 'O-U : DEFN' becomes Potential('O', 'U', function of DEFN)", ok, site=pb.site_of("_create_potential"),
+    chk.ob("C09.O7", "a [Pair] row 'O-U : DEFN' becomes Potential('O', 'U', function of DEFN)", ok, site=pb.lookup("potentials").site(),
            found=potobj.attrs if isinstance(potobj, InstV) else potobj, expect="Potential(O, U, built(defn))", key="C09.O7|pair-row")
 
 
